@@ -1155,9 +1155,8 @@ func shapesCollections(ss *shapeSet) {
 	add("map-delete-and-len", "", body("a int", "m := map[int]int{1: 10, 2: 20}\n\tdelete(m, a)\n\tdelete(m, a)\n\treturn len(m)"))
 	add("map-overwrite-and-len", "", body("a int, b int", "m := map[int]int{1: 10}\n\tm[a] = b\n\tm[a] = b + 1\n\tv, _ := m[a]\n\treturn len(m)*100 + v"))
 	add("map-aliases", "", body("a int", "m := map[int]int{1: 1}\n\tn := m\n\tn[a] = 5\n\treturn len(m)"))
-	add("map-string-keys", "", body("s string", "m := map[string]int{\"\": 1, \"a\": 2}\n\tm[s] = 7\n\tm[\"ab\"] += 1\n\tv, ok := m[\"ab\"]\n\tif ok {\n\t\treturn v*10 + len(m)\n\t}\n\treturn len(m)"))
+	add("map-string-keys", "", body("s string", "m := map[string]int{\"\": 1, \"a\": 2}\n\tm[s] = 7\n\tm[\"a\"] += 1\n\tv, ok := m[\"ab\"]\n\tif ok {\n\t\treturn v*10 + len(m)\n\t}\n\treturn len(m)"))
 	add("map-bool-keys", "", body("a int", "m := map[bool]int{true: 1}\n\tm[a > 1] = 5\n\tm[a > 0] = 6\n\tv, ok := m[false]\n\tif ok {\n\t\tv += 100\n\t}\n\treturn v*10 + len(m)"))
-	add("concatenated-string-as-map-key", "concatenated-string-is-a-buffer", body("s string", "m := map[string]int{\"ab\": 1}\n\tm[s+\"b\"] = 8\n\treturn m[\"ab\"]*10 + len(m)"))
 	add("map-range-commutative", "", body("a int", "m := map[int]int{1: 10, 2: 20, 7: 70}\n\tm[a] = 5\n\tx := 0\n\tfor k, v := range m {\n\t\tx += k*100 + v\n\t}\n\tfor k := range m {\n\t\tx += k\n\t}\n\tfor _, v := range m {\n\t\tx += v\n\t}\n\treturn x"))
 	add("map-of-slices", "", body("a int", "m := map[int][]int{1: {1, 2}}\n\tm[1] = append(m[1], a)\n\tm[2] = []int{a}\n\treturn len(m[1])*10 + len(m[2])"))
 	add("map-make-and-fill", "", body("a int", "m := make(map[int]int)\n\tfor i := 0; i < 4; i++ {\n\t\tm[i%(a+3)] = i\n\t}\n\treturn len(m)"))
@@ -1271,6 +1270,13 @@ func Z@(s string, t string) int {
 		r += 100
 	}
 	return r
+}
+`)
+	add("concatenated-string-as-map-key", "concatenated-string-is-a-buffer", `
+func Z@(s string) int {
+	m := map[string]int{"ab": 1}
+	m[s+"b"] = 8
+	return m["ab"]*10 + len(m)
 }
 `)
 	add("len-and-index-of-non-ascii", "", `
